@@ -46,6 +46,36 @@ CHECKS = {
    text="The bundled definition list (thorough: also with the currency overlay) is loaded under reversal, rotations, strides, file splits and seeded uniform shuffles, and generated databases (acyclic graphs of up to 60 units with forward, prefixed and plural references, prefixes, quantities, substances, docs, categories; values known to the generator) under 4 permutations each: the canonical exact dump and the set of reported problems must equal those of the original order, and generated databases must load to the generator's independently computed values.",
    note="Entries sharing (namespace, name) are reduced to the shipped-order winner first (the statement's premise).",
    design="§4 C12"),
+ "C13": dict(
+   level="exploration",
+   technique="property-based testing (proptest: edit scripts over the bundled files, generated databases with injected problems and known values, scale cases, mutated currency JSON) with a crash/hang oracle in a supervised worker and a named-problem / surviving-value oracle",
+   text="Mutated bundled files, generated databases (values known to the generator) with up to four injected problems of the kinds the loader says it reports, scale cases (cycles to 10000, alias chains, 10^5 blanks, parentheses to depth 1000) and mutated currency JSON are loaded in a worker process (8 MiB stack, 3 GiB, 20 s budget): the load must return, its error text must name every injected problem's definition, and afterwards the same context must give every surviving generated unit exactly the generator's value and still do arithmetic.",
+   note="Texts containing a literal exponent above 5000 are excluded (C04's resource clause). One recorded finding: unbounded recursion beyond ~10000-long chains/cycles (witnesses replayed).",
+   design="§4 C13"),
+ "C14": dict(
+   level="exploration",
+   technique="property-based testing (proptest) against an own proleptic-Gregorian calendar and RFC 3339 reader, with round-trip relations",
+   text="Instants (years 1..9999, nanoseconds, fixed offsets to +-23:59 and named zones) are written in eight documented literal patterns; the reply's rfc3339 read by an own reader must be the instant an own calendar computes; (d + t) - d = t and (d - t) + t = d exactly for t = k ns in nine time units with exact rational coefficients up to the documented maximum; d1 - d2 equals the calendar difference; re-zoning keeps the instant and shows the offset, offsets of 24 h or more are refused.",
+   note="Named zones have no independent oracle: wall-clock fields and instant preservation only; zoned literals before 1980 and DST-gap wall-clock times are excluded (counted).",
+   design="§4 C14"),
+ "C15": dict(
+   level="exploration",
+   technique="model-based property testing (proptest query histories against a reference model of `ans`) with a differential oracle against a pristine context",
+   text="Histories of 5-40 queries over 15 classes run through rink_core::eval on one context with the feature flag on or off and the previous answer unset or preset: previous_result must follow a reference model after every step, every reply (as JSON) must equal the reply of the same query on a pristine context given the model's previous answer (once per history also on a newly loaded context), and afterwards the exact registry dump and settings must be unchanged.",
+   note="A time-valued plain expression counts as a numeric result (stated assumption). Queries depending on `now` are not generated because eval() re-reads the clock by design.",
+   design="§4 C15"),
+ "C16": dict(
+   level="exploration",
+   technique="exhaustive sweep over every substance x property x direction plus property-based testing (proptest) with an exact-rational linearity / inverse oracle and generated chemical formulas",
+   text="For every substance and property whose names identify it unambiguously, `out of (a I S)` must equal output*(a/input) exactly and feeding the result back must return a; amounts of another dimensionality must give QueryError::Conformance; k*S and S/k must scale every `p of` and every dimensionless-input property of the reply; generated formulas (1-8 symbols, counts to 2^32-1) must give the exact count-weighted sum of element molar masses; near-miss strings must not be treated as formulas.",
+   note="Property values are read from the registry (trusted as database content). Substance names that are also unit names, or that denote an amount of a substance, are excluded (counted).",
+   design="§4 C16"),
+ "C17": dict(
+   level="exploration",
+   technique="exhaustive enumeration of every quantity and occurring dimensionality in several spellings plus proptest-generated exponent vectors, with a set-equality oracle over a registry filter",
+   text="Every named quantity and every dimensionality among stored units (as quantity name, as up to three units, as base-unit product) plus random exponent vectors: `units for` must list exactly the registry's non-alias units of that dimensionality (plus the base unit's long name for a first power), once each, under their own category; every `factorize` entry must multiply out to the dimensionality with no duplicates; all spellings must give identical lists.",
+   note="factorize only for complexity score <= 6 (the search is exponential above; see C04).",
+   design="§4 C17"),
  "C18": dict(
    level="fault_enumeration",
    technique="fault-sequence enumeration (all request sequences of length 1..3 over six request kinds) plus proptest-generated longer sequences with gaps, one Sandbox driver process per sequence, per-request oracle with id echo",
